@@ -190,7 +190,11 @@ class C01(Prop):
                         exp.append(ca[1])
                 else:
                     exp.append(ca)
-            cases.append(comp("\n".join(lines), {"include_comments": comments}, expect=exp))
+            if r.random() < 0.2:
+                # the same script through the file entry point
+                cases.append({"kind": "comp", "files": {"plain.txt": "\n".join(lines)}, "main": "plain.txt", "opts": {"include_comments": comments}, "expect": exp})
+            else:
+                cases.append(comp("\n".join(lines), {"include_comments": comments}, expect=exp))
         return cases
 
     def corpus(self, tier):
@@ -689,7 +693,11 @@ class C04(Prop):
                         else:
                             t = ("bin", o2, ("par", ("bin", o1, L, M)), R)
                         out.append(self.mk(t, {}, r))
-        for e in ["1+", "(1", "1)", "", " ", "1 1", "TRUE FALSE", "!TRUE", "!(TRUE)", "!!(FALSE)", "((((1))))", "(" * 100 + "1" + ")" * 100, "(" * 101 + "1" + ")" * 101,
+        for d in (1, 50, 99, 100):
+            out.append({"kind": "tok", "vars": {}, "expr": "(" * d + "1" + ")" * d, "ref": {"i": "1"}})
+            out.append({"kind": "tok", "vars": {}, "expr": "2*" + "(" * d + "1+2" + ")" * d + "-1", "ref": {"i": "5"}})
+            out.append({"kind": "tok", "vars": {}, "expr": "!(" * d + "TRUE" + ")" * d, "ref": {"b": d % 2 == 0}})
+        for e in ["1+", "(1", "1)", "", " ", "1 1", "TRUE FALSE", "!TRUE", "!(TRUE)", "!!(FALSE)", "((((1))))", "(" * 101 + "1" + ")" * 101,
                   "5/0", "5//0", "5%0", "0^-1", "2^-1", "5/(3-3)", "1/0+\"a\"", "\"a\"+1/0", "\"(\"+\")\"", "\",\"+1", "1,2", "1,2,3", "\"a\",\"b,c\",(1,2)"]:
             out.append({"kind": "tok", "vars": {}, "expr": e})
         return out
@@ -1004,6 +1012,18 @@ class C09(Prop):
                     out.append(comp(t))
         if tier != "thorough":
             out = r.sample(out, 2500)
+        allopts = [dict(include_comments=a, flipper_commands=b, supress_command_not_exist=c2) for a in (False, True) for b in (False, True) for c2 in (False, True)]
+        for nm in names:
+            for o in allopts:
+                out.append(comp(nm, o))
+                out.append(comp(nm + "   ", o))
+                out.append(comp("IF TRUE\n    " + nm + "\n    " + nm + " x", o))
+        import props2
+        F = props2.fcase
+        for leave in ("BREAKLOOP", "CONTINUE", "RETURN", "BREAK_LOOP\nSTRING never"):
+            for kind in ("START", "STARTCODE", "STARTENV"):
+                out.append(F({("m.txt",): "%s a\n%s a\nREPEAT 2\n    %s a\nSTRING end\n%s" % (kind, kind, kind, leave.split("\n")[0]), ("a.txt",): "STRING in\n" + leave}, ("m.txt",)))
+                out.append(F({("m.txt",): "%s\n    a\n    b\n    a" % kind, ("a.txt",): leave, ("b.txt",): leave}, ("m.txt",)))
         for o in [dict(stack_limit=1), dict(stack_limit=0), dict(stack_limit=-3), dict(flipper_commands=False), dict(include_comments=True, supress_command_not_exist=True)]:
             for t in ["IF TRUE\n    IF TRUE\n        STRING a", "FUNC f\n    RUN f\nRUN f", "ALTCHAR 1\nREM x\nFOO", "REPEAT 2\n    WHILE i,i<2\n        PASS"]:
                 out.append(comp(t, o))
